@@ -372,6 +372,9 @@ pub fn run(ctx: &Ctx) -> i32 {
     let workers = crate::par::threads();
     let chunk = 50usize;
     let next = AtomicUsize::new(0);
+    // cases already found not to terminate: after a few of them the expensive solitary re-runs stop
+    // (the verdict is settled; a tree that hangs on many inputs must not keep the check busy for hours)
+    let hang_verdicts = AtomicUsize::new(0);
     let total = std::sync::Mutex::new(Acc::default());
     std::thread::scope(|s| {
         for _ in 0..workers {
@@ -381,6 +384,10 @@ pub fn run(ctx: &Ctx) -> i32 {
                     let start = next.fetch_add(chunk, Ordering::Relaxed);
                     if start >= n {
                         break;
+                    }
+                    if hang_verdicts.load(Ordering::Relaxed) >= 8 {
+                        acc.count("batches_skipped_after_repeated_hangs");
+                        continue;
                     }
                     let end = (start + chunk).min(n);
                     let mut at = start;
@@ -407,6 +414,12 @@ pub fn run(ctx: &Ctx) -> i32 {
                             WorkerEnd::Stalled { in_flight } => {
                                 acc.count("workers_stalled");
                                 if let Some(idx) = in_flight {
+                                    if hang_verdicts.load(Ordering::Relaxed) >= 3 {
+                                        hang_verdicts.fetch_add(1, Ordering::Relaxed);
+                                        acc.violation(Violation { sig: "no termination within the budget".into(), case: case_json(seed, idx, thorough), observed: "the case did not finish within 120 s in a batch (not re-run alone: three other cases of this run had already failed to finish within 900 s alone)".into(), expected: "termination".into() });
+                                        at = resume.max(at + 1).min(end);
+                                        continue;
+                                    }
                                     // solitary re-run with a budget three orders of magnitude above the norm
                                     let t0 = Instant::now();
                                     let mut p2 = vec![];
@@ -419,7 +432,10 @@ pub fn run(ctx: &Ctx) -> i32 {
                                             acc.max("slowest_case_seconds", t0.elapsed().as_secs());
                                             acc.evals += a2.evals;
                                         }
-                                        _ => acc.violation(Violation { sig: "no termination within the budget".into(), case: case_json(seed, idx, thorough), observed: format!("the case did not finish within 120 s in a batch nor within 900 s alone ({how2:?})"), expected: "termination".into() }),
+                                        _ => {
+                                            hang_verdicts.fetch_add(1, Ordering::Relaxed);
+                                            acc.violation(Violation { sig: "no termination within the budget".into(), case: case_json(seed, idx, thorough), observed: format!("the case did not finish within 120 s in a batch nor within 900 s alone ({how2:?})"), expected: "termination".into() })
+                                        }
                                     }
                                 }
                             }
